@@ -122,7 +122,12 @@ def _mk(kind, n, r, edges):
         return CompleteBipartiteGraph(n, r)
     if rng is not None and _HIST["phase"] is None and rng.random() < _ORDER["nx"]:
         return _as_networkx(kind, n, r, target)
-    G = _new(kind, n, r)
+    if rng is not None and kind == "simple" and n >= 2 and rng.random() < .3:
+        # a graph that has grown: created smaller, enlarged by two or more vertices in one call
+        G = _new(kind, rng.randint(0, n - 2), r)
+        G.update_vertex_number(n)
+    else:
+        G = _new(kind, n, r)
     for u, v in _order(target, flip=(kind == "simple")):
         G.add_edge(u, v)
     return G
